@@ -4,6 +4,7 @@ CONSTANTS
   M = 2
   MaxR = 3
   OnceSetup = FALSE
+  CloseOn = "exit"
 INVARIANTS Conservation EofComplete
 PROPERTIES Settles
 CHECK_DEADLOCK FALSE
